@@ -660,3 +660,18 @@ package fit
 //@   loop 0 invariant [range] -1 <= rangeindex && rangeindex < len(opts)
 //@   loop 0 invariant [fresh] fresh_decoder(d) && fresh(d) && d != nil && pos(r) == old(pos(r))
 //@   loop 0 decreases len(opts) - rangeindex
+
+//@ spec streamEnd(r io.Reader) int := ite(eofpos(r) <= faultpos(r), eofpos(r), faultpos(r))
+
+//@ func DecodeChained(r io.Reader, opts []DecodeOption) (files []*File, err error)
+//@   props C01 C10 C11
+//@   locals rangeindex int, d *decoder, i int, fitFiles []*File
+//@   requires r != nil
+//@   ensures [monotone] pos(r) >= old(pos(r))
+//@   ensures [clean-eof-only] err == nil ==> cleanEnd(r, pos(r)) && len(files) >= 1
+//@   assigns pos(r)
+//@   loop 0 invariant [count] 0 <= i && i <= 1<<40 && len(fitFiles) == i && pos(r) >= old(pos(r))
+//@   loop 0 decreases streamEnd(r) - pos(r) + ite(i == 0, 1, 0)
+//@   loop 1 invariant [range] -1 <= rangeindex && rangeindex < len(opts)
+//@   loop 1 invariant [fresh] fresh_decoder(d) && fresh(d) && d != nil
+//@   loop 1 decreases len(opts) - rangeindex
